@@ -34,7 +34,7 @@ func goVal(n int) any {
 		return v
 	}
 	var v any
-	if n >= 1000 { // typed nils: one token per type (all nil values of one type are the same value)
+	if n >= 1001 && n <= 1004 { // typed nils: one token per type (all nil values of one type are the same value)
 		switch n {
 		case 1001:
 			v = (*int)(nil)
@@ -117,9 +117,7 @@ var (
 	issued    = map[int]error{} // the exact error VALUE a callback returns for `!n`
 )
 
-func sentinel(n int) error {
-	errMu.Lock()
-	defer errMu.Unlock()
+func sentinelLocked(n int) error {
 	if e, ok := sentinels[n]; ok {
 		return e
 	}
@@ -130,20 +128,20 @@ func sentinel(n int) error {
 
 // userError is what a scripted callback returns for `!n`: a plain sentinel, a %w-wrapped sentinel, or a
 // custom-typed error that wraps an inner error, depending on n%3 (property C04 names all three). The same
-// value is returned every time, so the harness can ask errors.Is for that very value.
+// value is returned every time (scenarios run in parallel: creation is under the lock), so the harness can
+// ask errors.Is for that very value.
 func userError(n int) error {
 	errMu.Lock()
+	defer errMu.Unlock()
 	if e, ok := issued[n]; ok {
-		errMu.Unlock()
 		return e
 	}
-	errMu.Unlock()
 	var e error
 	switch n % 3 {
 	case 0:
-		e = sentinel(n)
+		e = sentinelLocked(n)
 	case 1:
-		e = fmt.Errorf("callback context: %w", sentinel(n))
+		e = fmt.Errorf("callback context: %w", sentinelLocked(n))
 	default:
 		// the inner cause is sometimes a context error of the USER's own (an attempt-local timeout): it must be
 		// treated like any other user error while the run's own context is alive
@@ -156,9 +154,7 @@ func userError(n int) error {
 			e = &userErr{n: n, inner: errors.New("inner cause")}
 		}
 	}
-	errMu.Lock()
 	issued[n] = e
-	errMu.Unlock()
 	return e
 }
 
